@@ -58,7 +58,8 @@ func ipText(class string, r *rand.Rand) string {
 	case "mc4":
 		return []string{"224.0.0.1", "224.0.0.252"}[r.Intn(2)]
 	case "mc6":
-		return []string{"ff02::1:2", "FF02::1:2", "ff01::1"}[r.Intn(3)]
+		// link- and interface-scoped groups, also with flag bits set (the scope is the low nibble of the second byte)
+		return []string{"ff02::1:2", "FF02::1:2", "ff01::1", "ff12::1:2", "ff32:40:fe80::1:2", "ff11::1:2", "ff72::8000:1"}[r.Intn(7)]
 	case "garbage":
 		return []string{"notanip", "300.1.1.1", "10.0.0", "2001:db8::g", "1.2.3.4.5", "fe80::1%lo%lo", "10.0.0.1%lo%eth0", "::%%lo", "fe80::1%25lo%lo",
 			"[fe80::1]%lo", "[ff02::1:2]%lo", "[::]%", "[fe80::1]%"}[r.Intn(13)]
@@ -249,7 +250,9 @@ func absSection(sc *config.ServerConfig) Ev {
 }
 
 var cfgWords = []string{"8.8.8.8", "2001:db8::1", "leases.txt", "autorefresh", "3600s", "LL", "00:de:ad:be:ef:00", "1500", "example.org",
-	"10.0.0.0/24,10.0.0.1", "http://boot.example/x.efi", "255.255.255.0", "a,b", "x=y", "/var/lib/leases.sqlite"}
+	"10.0.0.0/24,10.0.0.1", "http://boot.example/x.efi", "255.255.255.0", "a,b", "x=y", "/var/lib/leases.sqlite",
+	// plain scalars that YAML does not read as strings (floats small and huge, a bool): the argument is what was written
+	"0.00005", "100000000000000000000000", "1.5", "true", "0.000012"}
 var cfgNames = []string{"dns", "sleep", "file", "server_id", "foo_bar", "range"}
 
 func randItems(r *rand.Rand, n int, onlyGood bool) []citem {
